@@ -28,6 +28,20 @@ func receiptsBody(nsend int) nd.Body {
 			planOf[i] = c.Choose(len(receiptPlans), "peer-plan")
 		}
 		sendFails := c.Choose(2, "output-closed-before-send") == 1 && nsend == 1
+		// without a canceller every call can only end with its receipt: a receipt
+		// that is lost (handled before the sender waits for it, say) leaves the
+		// call waiting for good, which the scheduler reports
+		withCanceller := c.Choose(2, "nobody-cancels") == 0
+		if !withCanceller {
+			if sendFails {
+				return nd.Result{Skip: true}
+			}
+			for _, p := range planOf {
+				if pl := receiptPlans[p]; pl == "never" || pl == "receipt-late" {
+					return nd.Result{Skip: true}
+				}
+			}
+		}
 		ns := stanza.NSClient
 		type outcome struct {
 			returned, cancelled bool
@@ -126,12 +140,14 @@ func receiptsBody(nsend int) nd.Body {
 				outs[i].cancelled = ctxs[i].Err() != nil
 				vs.Atomically(func() { outs[i].returned = true })
 			}
-			vs.GoNamed("canceller", false, func() {
-				for i := range cancels {
-					vs.Yield("cancel")
-					cancels[i]()
-				}
-			})
+			if withCanceller {
+				vs.GoNamed("canceller", false, func() {
+					for i := range cancels {
+						vs.Yield("cancel")
+						cancels[i]()
+					}
+				})
+			}
 			for i := 0; i < nsend-1; i++ {
 				i := i
 				vs.GoNamed(fmt.Sprintf("send%d", i+1), false, func() { send(i) })
@@ -162,7 +178,7 @@ func receiptsBody(nsend int) nd.Body {
 		for _, p := range planOf {
 			pn = append(pn, receiptPlans[p])
 		}
-		desc := fmt.Sprintf("receipts plans=%v output-closed-before-send=%v", pn, sendFails)
+		desc := fmt.Sprintf("receipts plans=%v output-closed-before-send=%v canceller=%v", pn, sendFails, withCanceller)
 		c.Note("%s outcome=%s", desc, out.Kind)
 		for _, t := range out.Trace {
 			c.Note("  %s", t)
